@@ -46,6 +46,10 @@ pub fn haversine_distance_meters(
         return Err(format!("dst y value not in range [-90, 90]: {}", dst_y));
     }
 
+    // the formula is evaluated in f64: in f32 the squared half-angle sines of nearby points keep
+    // only a few significant bits, and the result overshot short distances by up to half a
+    // percent, which makes a search estimate built on it overestimate
+    let (src_x, src_y, dst_x, dst_y) = (src_x as f64, src_y as f64, dst_x as f64, dst_y as f64);
     let lat1 = src_y.to_radians();
     let lat2 = dst_y.to_radians();
     let d_lat = lat2 - lat1;
@@ -53,6 +57,6 @@ pub fn haversine_distance_meters(
 
     let a = (d_lat / 2.0).sin().powi(2) + (d_lon / 2.0).sin().powi(2) * lat1.cos() * lat2.cos();
     let c = 2.0 * a.sqrt().asin();
-    let distance_meters = APPROX_EARTH_RADIUS_M * c;
-    Ok(Distance::new(distance_meters.into()))
+    let distance_meters = APPROX_EARTH_RADIUS_M as f64 * c;
+    Ok(Distance::new(distance_meters))
 }
